@@ -158,7 +158,7 @@ def regTag : Option Err → String
   | none => "R" | some .alreadyCancelled => "C" | some .alreadyEnded => "E" | _ => "N"
 
 def Ev.show : Ev → String
-  | .started t a => s!"S{t}({a.show})" | .sawCancel t => s!"X{t}" | .resumed t => s!"Y{t}" | .returned t => s!"R{t}" | .raised t => s!"E{t}"
+  | .started t a => s!"S{t}({a.show})" | .sawCancel t => s!"X{t}" | .resumed t => s!"Y{t}" | .next t => s!"N{t}" | .returned t => s!"R{t}" | .raised t => s!"E{t}"
   | .cancelCb t r c e k => s!"cc{t}:{r}/{c}/{e}/{regTag k}" | .cancelCbDone t => s!"cd{t}"
   | .cancelCbRaised t => s!"cr{t}" | .cancelCbKilled t => s!"ck{t}"
   | .endCb t r c e k => s!"ec{t}:{r}/{c}/{e}/{regTag k}" | .endCbDone t => s!"ed{t}"
